@@ -1318,6 +1318,11 @@ pub(crate) fn target_n_trees(
             let tree_nodes_per_tree = descendant_required + 1;
             // 3. Find the number of tree required to get as many tree nodes as item:
             let mut nb_trees = item_indices.len() / tree_nodes_per_tree;
+            // With very small dimensions the division above gives zero: an index that
+            // contains items must always end up with at least one tree to be searchable.
+            if nb_trees == 0 && !item_indices.is_empty() {
+                nb_trees = 1;
+            }
 
             // 4. We don't want to shrink too quickly when a user remove some documents.
             //    We're only going to shrink if we should remove more than 20% of our trees.
